@@ -149,40 +149,8 @@ func runC14(ctx *Ctx) *Report {
 		rep.Record(c, caseKey(c), len(c.Doc) > 8, diffs)
 		rep.Count("reader:" + c.Kind + ifs(c.Mode != "", "/"+c.Mode, "") + ifs(c.Format != "", "/"+c.Format, ""))
 	})
-	// --- writer failure at every write index, vs the model (text paths, where write granularity is one line / one root)
-	var wcases []Case
-	for fi, f := range forests {
-		doc := spell(f, plainSpelling)
-		size := 0
-		for _, t := range f {
-			size += t.Size()
-		}
-		for k := 0; k <= size; k++ {
-			for _, mode := range []string{"iter-text", "batch-text"} {
-				c := newCase("out")
-				c.Mode, c.Doc, c.DocText, c.WFail = mode, hx(doc), docText(doc), k
-				if (k+fi)%3 == 0 {
-					c.Short = 1 + (k+fi)%4
-				}
-				wcases = append(wcases, c)
-			}
-			if len(f) == 1 {
-				c := newCase("rootout")
-				c.Tree, c.WFail = f[0].Enc(), k
-				wcases = append(wcases, c)
-			}
-		}
-		for k := 0; k <= len(f); k++ {
-			c := newCase("out")
-			c.Mode, c.Doc, c.DocText, c.WFail, c.Exts = "iter-dry", hx(doc), docText(doc), k, []string{".go"}
-			wcases = append(wcases, c)
-		}
-	}
-	parallel(wcases, ctx.Workers, func(m *Model, c Case) {
-		diffs, realv := runCaseR(m, c)
-		rep.Record(c, caseKey(c), c.WFail >= 1, diffs)
-		rep.Count("writer:" + c.Kind + ifs(c.Mode != "", "/"+c.Mode, "") + "=>" + resultClass(realv))
-	})
+	// (writer faults are not compared with the model's chunk indexes: how the code batches its writes is
+	// not pinned by the property; the direct evaluation below counts the writes the real code makes)
 	// --- writer failure at every Write call the real code makes, all modes, property evaluated directly
 	var fcases []Case
 	for fi, f := range forests {
